@@ -250,7 +250,7 @@ Proof.
       unfold phase_of in *. destruct (N.eq_dec x t) as [->|Hne].
       + destruct Hs2 as [-> | ->]; cbn; rewrite upd_same; cbn; split; discriminate.
       + destruct Hs2 as [-> | ->]; cbn; rewrite upd_other by assumption; exact Hx'. }
-  cbn [st_cb set_ours set_task]. destruct (tr_kind r); [| destruct (d_service_no_cbrec cfg) |];
+  cbn [st_cb set_ours set_task]. destruct (tr_kind r); [| destruct (d_service_no_cbrec cfg) | | destruct (d_shutdown_no_cbrec cfg)];
     destruct (st_cb s t) eqn:Ecb; (apply Hcases; auto).
 Qed.
 
@@ -426,7 +426,7 @@ Proof.
   intros n Hn. apply Inm in Hn. destruct Hn as (l & El & _). destruct It as (_ & _ & _ & Ht). congruence.
 Qed.
 
-Example no_escape_conformant : no_escape no_dev /\ no_escape (mkDev true true false false true).
+Example no_escape_conformant : no_escape no_dev /\ no_escape (mkDev true true false false true true).
 Proof. repeat split. Qed.
 
 (* ---------- how one step changes the task records ---------- *)
@@ -448,9 +448,9 @@ Proof.
   - destruct (tr_phase (st_task s t)) eqn:Ep; try discriminate. inversion H; subst; clear H.
     destruct (N.eq_dec x t) as [->|Hne].
     + right; left. unfold phase_of. rewrite Ep. repeat split; try discriminate. left.
-      destruct (tr_kind (st_task s t)); [|destruct (d_service_no_cbrec cfg)|]; cbn;
+      destruct (tr_kind (st_task s t)); [|destruct (d_service_no_cbrec cfg)| |destruct (d_shutdown_no_cbrec cfg)]; cbn;
         repeat match goal with |- context [match ?e with _ => _ end] => destruct e end; cbn; rewrite upd_same; reflexivity.
-    + left. destruct (tr_kind (st_task s t)); [|destruct (d_service_no_cbrec cfg)|]; cbn;
+    + left. destruct (tr_kind (st_task s t)); [|destruct (d_service_no_cbrec cfg)| |destruct (d_shutdown_no_cbrec cfg)]; cbn;
         repeat match goal with |- context [match ?e with _ => _ end] => destruct e end; cbn; rewrite upd_other by assumption; reflexivity.
   - destruct (running s t) eqn:Er; [|discriminate]. apply running_body in Er.
     destruct (st_cb s y); inversion H; subst; clear H; [left; reflexivity|].
@@ -554,7 +554,7 @@ Proof.
   destruct l as [t k|t|t y j a|t y j|src y|t n|t o|t|t res|t| | |t y|t y]; cbn [step] in H.
   - destruct (phase_of s t); try discriminate. inversion H; subst. left. destruct k; reflexivity.
   - destruct (tr_phase (st_task s t)); try discriminate. inversion H; subst. left.
-    destruct (tr_kind (st_task s t)); [|destruct (d_service_no_cbrec cfg)|]; cbn;
+    destruct (tr_kind (st_task s t)); [|destruct (d_service_no_cbrec cfg)| |destruct (d_shutdown_no_cbrec cfg)]; cbn;
       repeat match goal with |- context [match ?e with _ => _ end] => destruct e end; reflexivity.
   - destruct (running s t); [|discriminate]. destruct (st_cb s y); inversion H; subst; left; reflexivity.
   - destruct (running s t); [|discriminate]. destruct (st_cb s y); inversion H; subst; left; reflexivity.
@@ -684,7 +684,7 @@ Proof.
   destruct l as [t k|t|t y j a|t y j|src y|t n|t o|t|t res|t| | |t y|t y]; cbn [step] in H.
   - destruct (phase_of s t); try discriminate. inversion H; subst. left. destruct k; exact Hin.
   - destruct (tr_phase (st_task s t)); try discriminate. inversion H; subst. left.
-    revert Hin. destruct (tr_kind (st_task s t)); [|destruct (d_service_no_cbrec cfg)|]; cbn;
+    revert Hin. destruct (tr_kind (st_task s t)); [|destruct (d_service_no_cbrec cfg)| |destruct (d_shutdown_no_cbrec cfg)]; cbn;
       repeat match goal with |- context [match ?e with _ => _ end] => destruct e end; cbn; auto.
   - destruct (running s t); [|discriminate]. destruct (st_cb s y); inversion H; subst; left; exact Hin.
   - destruct (running s t); [|discriminate]. destruct (st_cb s y); inversion H; subst; left; exact Hin.
@@ -969,7 +969,7 @@ Proof.
     { intros s2 Hs2. assert (Is2 : invB s2).
       { destruct Hs2 as [-> | ->]; [exact I2|]. apply invB_set_cb; [cbn; constructor|exact I2]. }
       split; [exact Is2|]. eapply invB_frame; [| | |exact Is2]; reflexivity. }
-    cbn [st_cb set_ours set_task]. destruct (tr_kind r); [| destruct (d_service_no_cbrec cfg) |];
+    cbn [st_cb set_ours set_task]. destruct (tr_kind r); [| destruct (d_service_no_cbrec cfg) | | destruct (d_shutdown_no_cbrec cfg)];
       destruct (st_cb s t) eqn:Ecb; (apply Hcases; auto).
   - (* LAdd *)
     cbn [step] in H. destruct (running s t) eqn:Er; [|discriminate].
@@ -1132,7 +1132,7 @@ Proof. intros Hc ls s x tb H. destruct (invAB_run cfg Hc ls s H) as [_ [_ B2 _]]
 (* ---------- D20 off: every task of ours that is still running has a callback record ---------- *)
 Definition rinv (s : state) (t : tid) : Prop :=
   match phase_of s t with
-  | PCreated => tr_kind (st_task s t) <> KSvc -> st_cb s t <> None
+  | PCreated => tr_kind (st_task s t) <> KSvc -> tr_kind (st_task s t) <> KShutL -> st_cb s t <> None
   | PBody | PFin _ _ _ _ => st_cb s t <> None
   | _ => True
   end.
@@ -1159,14 +1159,14 @@ Ltac rfin R t0 x :=
          | H : context [match tr_phase ?r with _ => _ end] |- _ => destruct (tr_phase r) eqn:?
          end; cbn in *; try tauto; try congruence; try discriminate.
 
-Lemma rinv_step cfg : d_service_no_cbrec cfg = false ->
+Lemma rinv_step cfg : d_service_no_cbrec cfg = false -> d_shutdown_no_cbrec cfg = false ->
   forall s l s', (forall t, rinv s t) -> step cfg s l = Some s' -> forall t, rinv s' t.
 Proof.
-  intros Hd s l s' R H t0. destruct l as [t k|t|t x j a|t x j|src x|t n|t o|t|t res|t| | |t x|t x]; cbn [step] in H.
+  intros Hd Hd2 s l s' R H t0. destruct l as [t k|t|t x j a|t x j|src x|t n|t o|t|t res|t| | |t x|t x]; cbn [step] in H.
   - destruct (phase_of s t) eqn:Ep; try discriminate. inversion H; subst; clear H.
     destruct k; rfin R t0 t.
   - destruct (tr_phase (st_task s t)) eqn:Ep; try discriminate. inversion H; subst; clear H.
-    rewrite Hd. destruct (tr_kind (st_task s t)) eqn:Ek; cbn [st_cb set_ours set_task]; destruct (st_cb s t) eqn:Ec;
+    rewrite Hd, Hd2. destruct (tr_kind (st_task s t)) eqn:Ek; cbn [st_cb set_ours set_task]; destruct (st_cb s t) eqn:Ec;
       rfin R t0 t.
   - destruct (running s t) eqn:Er; [|discriminate]. apply running_body in Er.
     destruct (st_cb s x) as [tb|] eqn:Ex; inversion H; subst; clear H; rfin R t0 t.
@@ -1206,18 +1206,19 @@ Proof.
     inversion H; subst; clear H. rfin R t0 t.
 Qed.
 
-Lemma rinv_run cfg : d_service_no_cbrec cfg = false -> forall ls s, run cfg ls = Some s -> forall t, rinv s t.
+Lemma rinv_run cfg : d_service_no_cbrec cfg = false -> d_shutdown_no_cbrec cfg = false ->
+  forall ls s, run cfg ls = Some s -> forall t, rinv s t.
 Proof.
-  intros Hd ls s H. apply (run_from_inv cfg (fun s => forall t, rinv s t) (rinv_step cfg Hd) ls init_state s); [|exact H].
+  intros Hd Hd2 ls s H. apply (run_from_inv cfg (fun s => forall t, rinv s t) (rinv_step cfg Hd Hd2) ls init_state s); [|exact H].
   intros t. unfold rinv, phase_of. cbn. exact Logic.I.
 Qed.
 
 (* with D20 repaired, add_done_callback on any task whose body is running registers the callback *)
-Theorem add_registers_on_running cfg : d_service_no_cbrec cfg = false ->
+Theorem add_registers_on_running cfg : d_service_no_cbrec cfg = false -> d_shutdown_no_cbrec cfg = false ->
   forall ls s t x j a, run cfg ls = Some s -> running s t = true -> phase_of s x = PBody ->
   exists tb, st_cb s x = Some tb /\ step cfg s (LAdd t x j a) = Some (set_cb s x (Some (tbl_add j a tb))).
 Proof.
-  intros Hd ls s t x j a H Hr Hx. pose proof (rinv_run cfg Hd ls s H x) as R. unfold rinv in R. rewrite Hx in R.
+  intros Hd Hd2 ls s t x j a H Hr Hx. pose proof (rinv_run cfg Hd Hd2 ls s H x) as R. unfold rinv in R. rewrite Hx in R.
   destruct (st_cb s x) as [tb|] eqn:E; [|congruence]. exists tb. split; [reflexivity|]. cbn [step]. rewrite Hr, E. reflexivity.
 Qed.
 
@@ -1286,11 +1287,11 @@ Qed.
 Local Open Scope N_scope.
 
 (* ---------- the statements are false of the code as it is: witnesses, checked by computation ---------- *)
-Definition only_d22 := mkDev true false false false false.
-Definition only_d20 := mkDev false true false false false.
-Definition only_d140 := mkDev false false true false false.
-Definition only_d141 := mkDev false false false true false.
-Definition only_d142 := mkDev false false false false true.
+Definition only_d22 := mkDev true false false false false false.
+Definition only_d20 := mkDev false true false false false false.
+Definition only_d140 := mkDev false false true false false false.
+Definition only_d141 := mkDev false false false true false false.
+Definition only_d142 := mkDev false false false false true false.
 
 (* D22: two callbacks, the first raises: the second is never called *)
 Definition wit_d22 : list label :=
@@ -1339,6 +1340,15 @@ Lemma refuted_D142 :
 Proof. eexists. split; [vm_compute; reflexivity|]. vm_compute. auto. Qed.
 Lemma callee_cancel_spares_caller cfg s t x : d_call_cancel_kills cfg = false -> step cfg s (LCallKilled t x) = None.
 Proof. intros H. cbn [step]. rewrite H, andb_false_r. reflexivity. Qed.
+
+(* D143: a legacy shutdown run (started by the waiter task without ast_ctx) has no callback record either *)
+Definition only_d143 := mkDev false false false false false true.
+Definition wit_d143 : list label := [LCreate 0 KShutL; LStart 0; LAdd 0 0 0 5].
+Lemma refuted_D143 :
+  exists s0 s, run only_d143 (firstn 2 wit_d143) = Some s0 /\ running s0 0 = true /\ st_ctx s0 0 = true /\
+               run only_d143 wit_d143 = Some s /\ st_cb s 0 = None /\ tr_out (st_task s 0) = Some ORaise.
+Proof. eexists. eexists. split; [vm_compute; reflexivity|]. split; [vm_compute; reflexivity|]. split; [vm_compute; reflexivity|].
+  split; [vm_compute; reflexivity|]. vm_compute. auto. Qed.
 
 (* independence fails for the live-dict loop: whether task 0 can take its next loop step normally depends on task 1 *)
 Lemma independent_needs_D141_off :
